@@ -383,6 +383,87 @@ def _observe_pool(pool, b):
     return dict(names=names, stores=stores, len=len(pool), ctx=ctxv)
 
 
+def _exec_pool_op(pool, o, array, b, cls, pname, tmp):
+    err, extra = None, {}
+    try:
+        if o['op'] == 'add_batch':
+            pool.add_batch({n: (np.full(b, v) if array else v) for n, v in o['batch']}, o['idx'])
+        elif o['op'] == 'get_batch':
+            got = pool.get_batch(o['idx'])
+            extra = dict(batch=[[n, int(np.asarray(v).ravel()[0])] for n, v in got.items()], contains=o['idx'] in pool)
+        elif o['op'] == 'remove_batch':
+            pool.remove_batch(o['idx'])
+        elif o['op'] == 'add_store':
+            pool.add_store(o['node'])
+        elif o['op'] == 'remove_store':
+            st = pool.remove_store(o['node'])
+            if hasattr(st, 'close'):
+                st.close()
+        elif o['op'] == 'clear':
+            pool.clear()
+        elif o['op'] == 'set_context':
+            pool.set_context(_Ctx(o['b'], o['seed']))
+        elif o['op'] == 'save':
+            pool.save()
+        elif o['op'] == 'open':
+            if array:
+                for st in pool.stores.values():
+                    if hasattr(st, 'close'):
+                        st.close()
+            pool = cls.open(pname, prefix=tmp)
+    except (ValueError, KeyError, AttributeError, TypeError, FileNotFoundError, IndexError) as e:
+        err = type(e).__name__
+    return pool, err, extra
+
+
+def _compare_pool(ctx, case, obs, answers):
+    for k, (ob, mo) in enumerate(zip(obs, answers)):
+        mp = mo['pool']
+        mp['stores'] = [sorted(x) if x is not None else None for x in mp['stores']]
+        o = case['ops'][k]
+        same = ((ob['err'] is None) == (mo['err'] is None) and ob['pool'] == mp
+                and (o['op'] != 'get_batch' or (sorted(ob['batch']) == sorted(mo['batch']) and ob['contains'] == mo['contains'])))
+        if same:
+            continue
+        prev0 = obs[k - 1]['pool'] if k else None
+        listed = (prev0 is not None and o['op'] == 'open' and ob['err'] is None and case['ops'][k - 1]['op'] == 'save'
+                  and case['array'] and _only_empty_stores_lost(prev0, ob['pool']))
+        if not listed:
+            ctx.corr_break('pool.step', dict(case, at=k), mo, ob)
+        # the property on the pool itself: what a store holds for a batch never changes once written; save leaves the live
+        # pool as it is; an opened pool holds exactly what the saved one held; a removed store does not come back
+        prev = obs[k - 1]['pool'] if k else None
+        if prev is not None and o['op'] in ('save', 'get_batch') and ob['pool'] != prev:
+            ctx.fail_input(dict(case, at=k), '%s changed the pool: %s -> %s' % (o['op'], prev, ob['pool']), prev, ob['pool'])
+        elif prev is not None and o['op'] == 'open' and ob['err'] is None and case['ops'][k - 1]['op'] == 'save' and ob['pool'] != prev \
+                and case['array'] and _only_empty_stores_lost(prev, ob['pool']):
+            ctx.fail_input(dict(case, at=k), 'ArrayPool: the stores %s, which held no batch at save(), are missing from the opened pool'
+                           % [n for n in prev['names'] if n not in ob['pool']['names']], prev, ob['pool'],
+                           finding='arraypool-empty-store-dropped-on-open')
+        elif prev is not None and o['op'] == 'open' and ob['err'] is None and case['ops'][k - 1]['op'] == 'save' and ob['pool'] != prev:
+            ctx.fail_input(dict(case, at=k), 'the pool opened right after save() differs from the saved one: %s -> %s' % (prev, ob['pool']),
+                           prev, ob['pool'])
+        elif prev is not None and o['op'] == 'add_batch' and ob['err'] is None:
+            for n, st_prev in zip(prev['names'], prev['stores']):
+                if n in ob['pool']['names'] and st_prev:
+                    st_now = ob['pool']['stores'][ob['pool']['names'].index(n)] or []
+                    lost = [e for e in st_prev if e not in st_now]
+                    if lost:
+                        ctx.fail_input(dict(case, at=k), 'add_batch altered what store %s held: %s no longer there' % (n, lost), st_prev, st_now)
+                        break
+        break
+
+
+def _only_empty_stores_lost(prev, now):
+    """the opened pool equals the saved one except that stores which held NO batch are missing (listed finding)"""
+    lost = [n for n in prev['names'] if n not in now['names']]
+    if not lost or any(prev['stores'][prev['names'].index(n)] != [] for n in lost):
+        return False
+    keep = [i for i, n in enumerate(prev['names']) if n not in lost]
+    return (now['names'] == [prev['names'][i] for i in keep] and now['stores'] == [prev['stores'][i] for i in keep]
+            and now['ctx'] == prev['ctx'])
+
+
 def check_pool_model(ctx):
     rng = ctx.rng
     tmp = tempfile.mkdtemp(prefix='c05p-')
@@ -450,36 +531,7 @@ def check_pool_model(ctx):
                     o = dict(op='get_batch', idx=0)
                 if array and o['op'] == 'open' and (not ops or ops[-1]['op'] != 'save' or obs[-1]['err']):
                     o = dict(op='save')
-                err = None
-                extra = {}
-                try:
-                    if o['op'] == 'add_batch':
-                        pool.add_batch({n: (np.full(b, v) if array else v) for n, v in o['batch']}, o['idx'])
-                    elif o['op'] == 'get_batch':
-                        got = pool.get_batch(o['idx'])
-                        extra = dict(batch=[[n, int(np.asarray(v).ravel()[0])] for n, v in got.items()], contains=o['idx'] in pool)
-                    elif o['op'] == 'remove_batch':
-                        pool.remove_batch(o['idx'])
-                    elif o['op'] == 'add_store':
-                        pool.add_store(o['node'])
-                    elif o['op'] == 'remove_store':
-                        st = pool.remove_store(o['node'])
-                        if hasattr(st, 'close'):
-                            st.close()
-                    elif o['op'] == 'clear':
-                        pool.clear()
-                    elif o['op'] == 'set_context':
-                        pool.set_context(_Ctx(o['b'], o['seed']))
-                    elif o['op'] == 'save':
-                        pool.save()
-                    elif o['op'] == 'open':
-                        if array:
-                            for st in pool.stores.values():
-                                if hasattr(st, 'close'):
-                                    st.close()
-                        pool = cls.open(pname, prefix=tmp)
-                except (ValueError, KeyError, AttributeError, TypeError, FileNotFoundError, IndexError) as e:
-                    err = type(e).__name__
+                pool, err, extra = _exec_pool_op(pool, o, array, b, cls, pname, tmp)
                 ob = dict(err=err, pool=_observe_pool(pool, b), **extra)
                 ops.append(o)
                 obs.append(ob)
@@ -500,32 +552,7 @@ def check_pool_model(ctx):
             if 'ok' not in a:
                 ctx.corr_break('pool.driver', case, 'an answer', a)
                 continue
-            for k, (ob, mo) in enumerate(zip(obs, a['ok'])):
-                mp = mo['pool']
-                mp['stores'] = [sorted(x) if x is not None else None for x in mp['stores']]
-                o = case['ops'][k]
-                same = ((ob['err'] is None) == (mo['err'] is None) and ob['pool'] == mp
-                        and (o['op'] != 'get_batch' or (sorted(ob['batch']) == sorted(mo['batch']) and ob['contains'] == mo['contains'])))
-                if same:
-                    continue
-                ctx.corr_break('pool.step', dict(case, at=k), mo, ob)
-                # the property on the pool itself: what a store holds for a batch never changes once written; save leaves the live
-                # pool as it is; an opened pool holds exactly what the saved one held; a removed store does not come back
-                prev = obs[k - 1]['pool'] if k else None
-                if prev is not None and o['op'] in ('save', 'get_batch') and ob['pool'] != prev:
-                    ctx.fail_input(dict(case, at=k), '%s changed the pool: %s -> %s' % (o['op'], prev, ob['pool']), prev, ob['pool'])
-                elif prev is not None and o['op'] == 'open' and ob['err'] is None and case['ops'][k - 1]['op'] == 'save' and ob['pool'] != prev:
-                    ctx.fail_input(dict(case, at=k), 'the pool opened right after save() differs from the saved one: %s -> %s' % (prev, ob['pool']),
-                                   prev, ob['pool'])
-                elif prev is not None and o['op'] == 'add_batch' and ob['err'] is None:
-                    for n, st_prev in zip(prev['names'], prev['stores']):
-                        if n in ob['pool']['names'] and st_prev:
-                            st_now = ob['pool']['stores'][ob['pool']['names'].index(n)] or []
-                            lost = [e for e in st_prev if e not in st_now]
-                            if lost:
-                                ctx.fail_input(dict(case, at=k), 'add_batch altered what store %s held: %s no longer there' % (n, lost), st_prev, st_now)
-                                break
-                break
+            _compare_pool(ctx, case, obs, a['ok'])
     finally:
         shutil.rmtree(tmp, ignore_errors=True)
 
@@ -542,7 +569,34 @@ def search(ctx):
     process(ctx, 600)
 
 
+def replay_pool(ctx, case):
+    tmp = tempfile.mkdtemp(prefix='c05pr-')
+    try:
+        array, b = case['array'], case['b']
+        cls = elfi.ArrayPool if array else elfi.OutputPool
+        pool = cls(list(case['names']), name='rp', prefix=tmp)
+        if array:
+            pool.set_context(_Ctx(b, case['seed']))
+        obs = []
+        for o in case['ops']:
+            pool, err, extra = _exec_pool_op(pool, o, array, b, cls, 'rp', tmp)
+            obs.append(dict(err=err, pool=_observe_pool(pool, b), **extra))
+        if array:
+            for st in pool.stores.values():
+                if hasattr(st, 'close'):
+                    st.close()
+        a = ctx.lean.drive([dict(op='C05.pool', stores=[[n, 'none'] for n in case['names']], ctx=[b, case['seed']] if array else None,
+                                 ops=case['ops'])])[0]
+        base = {k: v for k, v in case.items() if k != 'at'}
+        _compare_pool(ctx, base, obs, a['ok'])
+        return dict(observations=obs)
+    finally:
+        shutil.rmtree(tmp, ignore_errors=True)
+
+
 def replay(ctx, case):
+    if case.get('kind') == 'pool-model':
+        return replay_pool(ctx, case)
     tmp = tempfile.mkdtemp(prefix='c05r-')
     try:
         base = {k: v for k, v in case.items() if k not in ('at_step', 'refuse', 'batch', 'supplied')}
